@@ -73,4 +73,4 @@ def check(env, rep, tier):
         rep.ob("C20.2", "entry-used", "lru_time_cache::LruCache::<Key, Value>::entry" in used,
                "no LruCache::entry call found: the state lookup mechanism is gone", site)
         rep.floor("C20.2", "entry().or_insert() lookups", len(used.get("lru_time_cache::Entry::<'a, Key, Value>::or_insert", []))
-                  + len(used.get("lru_time_cache::Entry::<'a, Key, Value>::or_insert_with", [])), 2)
+                  + len(used.get("lru_time_cache::Entry::<'a, Key, Value>::or_insert_with", [])), 1)
